@@ -139,7 +139,7 @@ def make_carver(case, cfg):
     from AutoCarver.carvers.continuous_carver import ContinuousCarver
     kw = dict(min_freq=cfg['min_freq'], quantitative_features=list(case['quantitative']), qualitative_features=list(case['qualitative']), ordinal_features=list(case['ordinal']),
               values_orders=values_orders_arg(case), max_n_mod=cfg['max_n_mod'], min_freq_mod=cfg.get('min_freq_mod'), output_dtype=cfg.get('output_dtype', 'float'),
-              dropna=cfg.get('dropna', True), copy=cfg.get('copy', True), verbose=False, **extra_kwargs(cfg))
+              dropna=cfg.get('dropna', True), copy=cfg.get('copy', True), verbose=False, n_jobs=cfg.get('n_jobs', 1), **extra_kwargs(cfg))
     if case['target'] == 'binary': return BinaryCarver(sort_by=cfg.get('sort_by', 'tschuprowt'), **kw)
     return ContinuousCarver(**kw)
 
